@@ -138,17 +138,18 @@ Fixpoint wf_gates (n np : nat) (t : list N) (gs : list gate) : option (list N) :
       | GH q => if qubit_ok n q && negb (touched q t) then wf_gates n np (q :: t) gs' else None
       end
   end.
-(* one evaluate_circuits call: np parameters per circuit; the initial-state circuit has none and the same width *)
-Definition wf_call (np : nat) (init : option ccirc) (circuits : list ccirc) (pvals : list cparams) : bool :=
+(* one evaluate_circuits call: circuit i has exactly as many parameters as its value vector is long (parameter indices
+   beyond it are ill-formed); the initial-state circuit has none and the same width *)
+Definition wf_pair (t : list N) (cp : ccirc * cparams) : bool :=
+  match wf_gates (fst (fst cp)) (length (snd cp)) t (snd (fst cp)) with Some _ => true | None => false end.
+Definition wf_call (init : option ccirc) (circuits : list ccirc) (pvals : list cparams) : bool :=
   (length circuits =? length pvals)%nat
-  && forallb (fun p : cparams => (length p =? np)%nat) pvals
   && match init with
-     | None => forallb (fun c : ccirc => match wf_gates (fst c) np [] (snd c) with Some _ => true | None => false end) circuits
+     | None => forallb (wf_pair []) (combine circuits pvals)
      | Some a =>
          match wf_gates (fst a) 0 [] (snd a) with
          | None => false
-         | Some t => forallb (fun c : ccirc => (fst c =? fst a)%nat
-                                              && match wf_gates (fst c) np t (snd c) with Some _ => true | None => false end) circuits
+         | Some t => forallb (fun cp : ccirc * cparams => (fst (fst cp) =? fst a)%nat && wf_pair t cp) (combine circuits pvals)
          end
      end.
 (* the exact sampler's counts are exact: shots * multiplicity is divisible by the number of support elements *)
